@@ -194,11 +194,11 @@ func TestC06ActionCacheHit(t *testing.T) {
 					tree.Root.Directories = append(tree.Root.Directories, &pb.DirectoryNode{Name: fmt.Sprintf("c%d", c), Digest: &pb.Digest{Hash: gen.SHA(cb), SizeBytes: int64(len(cb))}})
 					tree.Children = append(tree.Children, child)
 				}
-				if nroot == 0 && nch == 0 {
-					// two empty trees would be one blob: a tree that is meant to be
-					// absent would be present through its twin
-					tree.Root.Symlinks = []*pb.SymlinkNode{{Name: fmt.Sprintf("s%d", d), Target: "t"}}
-				}
+				// Two trees with the same shape (no files, equally many empty children)
+				// would be one blob: a tree that is meant to be absent would be present
+				// through its twin. Every tree carries a symlink named after its
+				// output directory.
+				tree.Root.Symlinks = []*pb.SymlinkNode{{Name: fmt.Sprintf("s%d", d), Target: "t"}}
 				tb, _ := proto.Marshal(tree)
 				w.seq++
 				tr := &ref{what: fmt.Sprintf("dir%d(tree)", d), data: tb, state: "local", digest: &pb.Digest{Hash: gen.SHA(tb), SizeBytes: int64(len(tb))}}
